@@ -381,7 +381,9 @@ Proof.
           rewrite (ext_nth _ _ _ X1 B), El, nth_error_app_new. simpl. split; auto.
           destruct (is_cont (okind o)) eqn:Ic; [destruct (okind o); simpl in *; discriminate|].
           apply (cells_sim_ext _ _ _ _ S1) in Xs.
-          clear - Xs. induction Xs as [|c1 c2 r1 r2 [Hk Hs] Hr IHr]; constructor; auto. }
+          revert Xs. generalize (h1 ++ [mkObj (okind o) cs']) as hh. generalize (ocells o) as cso. intros cso hh Xs.
+          clear - Xs. induction Xs as [|c1 c2 r1 r2 [Hk Hs] Hr IHr]; constructor;
+            [split; [exact Hk | apply Hs] | exact IHr]. }
         split; auto.
         intros a b [Hab|Hab] n.
         -- inversion Hab; subst. apply Sfin.
